@@ -18,9 +18,9 @@ import (
 )
 
 type component struct {
-	gen  func(r *rng, maxops int, w *bufio.Writer)       // one script
-	enum func(args []string, w *bufio.Writer)            // many scripts, each preceded by its "# script" line
-	run  func(script []string, w *bufio.Writer)          // one script -> trace lines
+	gen  func(r *rng, maxops int, w *bufio.Writer) // one script
+	enum func(args []string, w *bufio.Writer)      // many scripts, each preceded by its "# script" line
+	run  func(script []string, w *bufio.Writer)    // one script -> trace lines
 	// optional: runtime-only checks no model can exhibit; prints DIRECT-FAIL / DIRECT-STAT lines
 	direct func(seed uint64, tier string, args []string, w *bufio.Writer)
 }
